@@ -55,6 +55,7 @@ inductive Cond where
   | gIsNone (v : Var)           -- `<option> is None`
   | strEq (v : Var) (s : String) -- `<row attribute> == '<literal>'`
   | gNonzero (v : Var)          -- `<option> != 0`
+  | nonzero (v : Var)           -- `<table> != 0` (a boolean mask)
   | rel (a b : Var)             -- `operation(a, b)` for a comparison ufunc passed as a parameter
   | and (a b : Cond)
   | or (a b : Cond)
@@ -77,6 +78,7 @@ inductive MExpr where
   | sum (i : Idx) (body : MExpr) -- `.sum(axis=1)` over the columns `i` / accumulation over a loop on `i`
   | ite (c : Cond) (a b : MExpr)
   | raise                       -- the python code raises here
+  | nan                         -- pandas puts NaN here (`frame.where(mask)`)
   | lookup (keys vals : Tbl) (a : MExpr) -- `vals.iloc[np.argmin([np.abs(keys.index - a)])]`
   | round (a : MExpr)           -- `Series.round()` (half to even)
   | ind (c : Cond)              -- boolean mask used as a number
@@ -101,6 +103,7 @@ def evalC (env : Env) (row : Row) : Cond → Bool
   | .gIsNone v => env.glob.none v
   | .strEq v s => decide (row.str v = s)
   | .gNonzero v => !decide (env.glob.num v = 0)
+  | .nonzero v => !decide (row.num v = 0)
   | .rel a b => env.rel (row.num a) (row.num b)
   | .and a b => evalC env row a && evalC env row b
   | .or a b => evalC env row a || evalC env row b
@@ -122,6 +125,7 @@ def eval (env : Env) (row : Row) : MExpr → Rat
   | .sum i b => lsum ((env.rows i).map fun r => eval env r b)
   | .ite c a b => bif evalC env row c then eval env row a else eval env row b
   | .raise => 0
+  | .nan => 0
   | .lookup k v a => ((env.tbl v).map Prod.snd).getD (nearest ((env.tbl k).map Prod.fst) (eval env row a)) 0
   | .round a => (roundHalfEven (eval env row a) : Int)
   | .ind c => bif evalC env row c then 1 else 0
@@ -144,6 +148,7 @@ def ok (env : Env) (row : Row) : MExpr → Bool
   | .sum i b => (env.rows i).all fun r => ok env r b
   | .ite c a b => bif evalC env row c then ok env row a else ok env row b
   | .raise => false
+  | .nan => false
   | .lookup k _ a => ok env row a && !decide (env.tbl k = [])
   | .round a => ok env row a
   | .ind _ => true
